@@ -259,8 +259,24 @@ def judge(chk, traces):
         batch.append(hdr)
         keep.append((scn, origin, o))
     cfg = 'SPECIFICATION MSpec\nCONSTRAINT Record\nPOSTCONDITION Post\nCHECK_DEADLOCK FALSE\n'
-    verdicts, stats = tlc.validate_batch('CrawlMon', cfg, batch, chunk=400, timeout=1800)
-    chk.trace_stats(stats)
+    # chunks bounded by the number of events (one JSON file per TLC run)
+    verdicts = []
+    part, nev = [], 0
+    parts = []
+    for h in batch:
+        if part and (nev + len(h['ev']) > 150000 or len(part) >= 400):
+            parts.append(part)
+            part, nev = [], 0
+        part.append(h)
+        nev += len(h['ev'])
+    if part:
+        parts.append(part)
+    from concurrent.futures import ThreadPoolExecutor
+    with ThreadPoolExecutor(max_workers=4) as ex:
+        outs = list(ex.map(lambda p: tlc.validate_batch('CrawlMon', cfg, p, timeout=2400, heap='4g'), parts))
+    for v, stats in outs:
+        verdicts += v
+        chk.trace_stats(stats)
     for (scn, origin, o), hdr, v in zip(keep, batch, verdicts):
         chk.validated(1)
         chk.distinct.add(json.dumps(hdr['ev'], sort_keys=True))
